@@ -232,7 +232,7 @@ def random_traces(rng, count, steps):
         A = rng.choice([1.0, 0.5, 0.25, 2.0, -1.0, -0.5])
         S = rng.choice([1.0, 0.5, -0.5, 2.0])
         u = rng.choice([1.0, 0.5, 2.0])
-        P = Params(dt=dt, D=D, tau=tau, A=A, S=S, u=u, alpha=0.5, target=1, obsmode=rng.choice(["float", "tol"]),
+        P = Params(dt=dt, D=D, tau=tau, A=A, S=S, u=u, alpha=0.5, target=1, obsmode=rng.choice(["float", "tol", "edge"]),
                    exact=True)
         shape = rng.choice([(1,), (2,), (3,), (2, 2), (2, 3)])
         E = math.prod(shape)
@@ -399,7 +399,7 @@ def run(tier: str, seed: int) -> int:
                                 pd = PARAM_SETS[pi]
                             mode = "float"
                             if rk in ("near", "cum"):
-                                mode = ["float", "tol", "bool", "float"][pi]
+                                mode = ["float", "tol", "bool", "edge"][pi]
                                 if mode == "bool":
                                     pd = dict(pd, u=1.0)
                             P = Params(D=c["Dt0"], obsmode=mode, **pd)
